@@ -9,6 +9,6 @@ cd "$OUT" || exit 1
 MODEL=$(ocamlfind ocamldep -sort $(ls *.ml | grep -v '^drv_') $(ls *.mli))
 rc=0
 for d in drv_*.ml; do
-  ocamlfind ocamlopt -O3 -w -a -o "${d%.ml}" $MODEL "$d" 2>/dev/null || ocamlfind ocamlopt -w -a -o "${d%.ml}" $MODEL "$d" 2>/dev/null || { rm -f "${d%.ml}"; case "$d" in drv_semi.ml|drv_pos.ml) ;; *) rc=1;; esac; }
+  ocamlfind ocamlopt -O3 -w -a -o "${d%.ml}" $MODEL "$d" 2>/dev/null || ocamlfind ocamlopt -w -a -o "${d%.ml}" $MODEL "$d" 2>/dev/null || { rm -f "${d%.ml}"; case "$d" in drv_semi.ml|drv_pos.ml|drv_req.ml) ;; *) rc=1;; esac; }
 done
 exit $rc
